@@ -164,6 +164,28 @@ def check(ctx):
     ctx.decide(n_handler_exc > 0 and wrapped_ok and not reraise, "R-DOM/handler-wrapped", construct, br.where(cb),
                "handler call is inside try/except Exception after which the answer under test is None",
                "the handler call is not wrapped by an `except Exception` that falls through to the error answer", key="wrapped")
+    # the error path itself cannot fail: from the entry of the `except Exception` handler to the send of the error answer,
+    # callback_route evaluates nothing that can raise on its own - in particular no indexing (`e.args[0]` of an exception raised
+    # without arguments is an IndexError raised INSIDE the handler: it leaves callback_route before any answer is sent)
+    risky = []
+    for n in walk_no_nested(cb):
+        if isinstance(n, ast.Try):
+            for h in n.handlers:
+                if h.type is None or ast.unparse(h.type) in ("Exception", "BaseException"):
+                    for b in h.body:
+                        for x in ast.walk(b):
+                            if isinstance(x, ast.Subscript) and isinstance(x.ctx, ast.Load) and not isinstance(x.slice, ast.Slice):
+                                risky.append(x)
+                            elif isinstance(x, ast.Call) and isinstance(x.func, ast.Name) and x.func.id in ("next", "int", "float") :
+                                risky.append(x)
+                            elif isinstance(x, ast.BinOp) and isinstance(x.op, (ast.Div, ast.FloorDiv, ast.Mod)) and not isinstance(x.left, ast.Constant):
+                                risky.append(x)
+    ctx.decide(not risky, "R-ESC/error-path", construct, br.where(risky[0] if risky else cb),
+               "the handler of a failing route function evaluates nothing that can itself raise",
+               f"inside the `except Exception` handler of callback_route `{ast.unparse(risky[0])[:50] if risky else ''}` can raise on its own "
+               f"(an exception raised without arguments has empty args; a failing assert, bare `raise KeyError`, StopIteration ...): "
+               f"the new exception leaves callback_route before create_error_answer/send_message run, so the request gets no answer at all",
+               key="error_path")
     if npaths and not reraise:
         ctx.floor("callback_route_paths", npaths, 6)
     else:
